@@ -101,14 +101,132 @@ def generate(tier, seed):
     return cases
 
 
+def gen_roots(tier, seed):
+    """polynomials given by their linear factors (q x - (a + b i)); for real coefficients non-real factors come with their conjugates"""
+    r = random.Random(seed)
+    cases = []
+    reps = 1 if tier == "quick" else 10
+
+    def factor(realonly, big=False):
+        q = r.choice([1, 1, 1, 2, 4] if not big else [1, 8, 16])
+        a = r.randint(-4, 4) if not big else r.randint(-12, 12)
+        b = 0 if realonly else r.randint(-4, 4)
+        return {"q": q, "a": a, "b": b}
+
+    def build(n, real, style):
+        F = []
+        while len(F) < n:
+            room = n - len(F)
+            if style == "zero" and not F:
+                f = {"q": 1, "a": 0, "b": 0}
+            elif real and room >= 2 and r.random() < 0.45:
+                f = factor(False)
+                if f["b"] == 0:
+                    f["b"] = r.choice([1, 2, 3])
+                F.append(f); f = {"q": f["q"], "a": f["a"], "b": -f["b"]}
+            else:
+                f = factor(real, big=(style == "scaled" and r.random() < 0.5))
+            F.append(f)
+            if style == "multiple" and len(F) < n and r.random() < 0.5 and (not real or f["b"] == 0):
+                F.append(dict(f))
+            if style == "symmetric" and len(F) < n:      # the opposite root as well: the next-to-leading coefficients cancel (b = 0 for quadratics)
+                F.append({"q": f["q"], "a": -f["a"], "b": -f["b"]}) if (not real or f["b"] == 0) else None
+        F = F[:n]
+        if real:      # cutting may have split a conjugate pair
+            im = [f for f in F if f["b"] != 0]
+            for f in im:
+                if sum(1 for g in F if (g["q"], g["a"], g["b"]) == (f["q"], f["a"], -f["b"])) != sum(1 for g in F if (g["q"], g["a"], g["b"]) == (f["q"], f["a"], f["b"])):
+                    return None
+        lead = [r.choice([-3, -2, -1, 1, 2, 3, 5]), 0 if real else r.randint(-2, 2)]
+        # the expanded coefficients must stay within the spec's integers
+        P = [complex(lead[0], lead[1])]
+        mx = 0
+        for f in F:
+            z = complex(f["a"], f["b"])
+            P = [(f["q"] * (P[k - 1] if k >= 1 else 0)) - z * (P[k] if k < len(P) else 0) for k in range(len(P) + 1)]
+        mag = sum(abs(c) for c in P) * max(max(abs(f["a"]) + abs(f["b"]), f["q"]) for f in F) ** n
+        if mag >= LIM:
+            return None
+        return {"kind": "roots", "lead": lead, "real": int(real), "factors": F, "float": int(n <= 5), "style": style}
+    for n in (2, 3, 4, 5, 6, 8):
+        for real in (1, 0):
+            for style in ("plain", "multiple", "symmetric", "zero", "scaled"):
+                want = (12 if n <= 3 else 5) * reps
+                tries = 0
+                while want and tries < 2000:
+                    tries += 1
+                    c = build(n, real, style)
+                    if c:
+                        cases.append(c); want -= 1
+    return cases
+
+
+def check_roots(rep, c, o, worst):
+    n = len(c["factors"])
+    exact = [complex(f["a"], f["b"]) / f["q"] for f in c["factors"]]
+    coef = [complex(a, b) for a, b in zip(c["re"], c["im"])]       # decreasing powers
+    asc = list(reversed(coef))
+
+    def deriv(P, m):
+        for _ in range(m):
+            P = [k * P[k] for k in range(1, len(P))]
+        return P
+
+    def val(P, z):
+        v = 0
+        for cc in reversed(P):
+            v = v * z + cc
+        return v
+    for key, res in o.items():
+        if "/" not in key:
+            continue
+        prec, api = key.split("/")
+        eps = 2.3e-16 if prec == "double" else 1.2e-7
+        tag = "roots/%s/%s/degree-%s/%s" % (api, prec, n if n <= 3 else "n", c["style"])
+        if "exc" in res:
+            rep.violation(tag + "/exception", {"case": c}, "findRoots(%s) on %s raised: %s" % (api, json.dumps(c)[:300], res["exc"]))
+            continue
+        roots = [complex(a, b) for a, b in res["roots"]]
+        if len(roots) != n or any(z != z for z in roots):
+            rep.violation(tag + "/number-of-roots", {"case": c}, "findRoots(%s) on %s returned %s" % (api, json.dumps(c)[:300], res["roots"]))
+            continue
+        # every exact root (with its multiplicity) must be returned, within the root's conditioning:
+        #   |dz| ~ (K eps sum|c_k||z|^k m! / |P^(m)(z)|)^(1/m)
+        left = list(roots)
+        bad = None
+        for z in sorted(set(exact), key=lambda z: -exact.count(z)):
+            m = exact.count(z)
+            scale = sum(abs(cc) * abs(z) ** k for k, cc in enumerate(asc))
+            pm = abs(val(deriv(asc, m), z))
+            tol = (2e4 * n * eps * scale * math.factorial(m) / pm) ** (1.0 / m) + 1e3 * eps * (1 + abs(z))
+            for _ in range(m):
+                j = min(range(len(left)), key=lambda j: abs(left[j] - z))
+                d = abs(left[j] - z)
+                worst[tag] = max(worst.get(tag, 0.0), d / tol)
+                if d > tol and bad is None:
+                    bad = (z, m, left[j], d, tol)
+                left.pop(j)
+        if bad:
+            rep.violation(tag + "/root-not-returned", {"case": c},
+                          "findRoots(%s, %s) of %s = %s: the root %s (multiplicity %d) is not among the results %s (nearest %s, distance %.3g, conditioning allows %.3g)"
+                          % (api, prec, json.dumps(c["factors"]), [str(x) for x in coef], bad[0], bad[1], res["roots"], bad[2], bad[3], bad[4]))
+            continue
+        # real coefficients: the returned non-real roots come in conjugate pairs
+        if c["real"] and not api.endswith("c"):
+            for z in roots:
+                if abs(z.imag) > 1e3 * eps * (1 + abs(z)) and min(abs(w - z.conjugate()) for w in roots) > 1e-3 * (1 + abs(z)) * (1 if prec == "double" else 30):
+                    rep.violation(tag + "/no-conjugate-partner", {"case": c}, "findRoots(%s, %s) of %s: %s has no conjugate partner in %s" % (api, prec, json.dumps(c["factors"]), z, res["roots"]))
+                    break
+
+
 def fr(x):
     return Fraction(x["n"], x["d"])
 
 
 def main():
-    pid = "C41"
+    pid = sys.argv[1]
     tier, replay = "quick", None
-    args = sys.argv[1:]
+    args = sys.argv[2:]
     while args:
         a = args.pop(0)
         if a == "--tier":
@@ -122,9 +240,10 @@ def main():
     binpath = vlib.compile_harness(os.path.join(VERIF, "harness", "replay_func.cpp"), os.path.join(VERIF, ".build", "bin", "replay_func"),
                                    extra=["-I" + os.path.join(VERIF, "harness")], libs=("SimTKmath", "SimTKcommon"))
     cov = {"states": 0, "transitions": 0, "traces_validated_against_impl": 0, "samples": []}
-    cases = [json.load(open(replay))["replay"]["case"]] if replay else generate(tier, vlib.seed())
+    cases = [json.load(open(replay))["replay"]["case"]] if replay else (generate if pid == "C41" else gen_roots)(tier, vlib.seed())
     for c in cases:
-        c.pop("ywant", None)
+        for k in ("re", "im"):
+            c.pop(k, None)
     pfile = os.path.join(work, "cases.ndjson")
     with open(pfile, "w") as f:
         for c in cases:
@@ -139,6 +258,8 @@ def main():
     for c, w in zip(cases, want):
         if c["kind"] == "spline":
             c["y"] = w["knots"]          # the samples of the polynomial at the knots, from the spec
+        if c["kind"] == "roots":
+            c["re"], c["im"] = w["re"], w["im"]      # the expanded coefficients (decreasing powers), from the spec
     with open(pfile, "w") as f:
         for c in cases:
             f.write(json.dumps(c) + "\n")
@@ -176,6 +297,9 @@ def main():
                 chk(what + "/Vec3", [x * MIX[k] for x in a], [v[k] for v in b3], sc * 2, tol)
         if o.get("exc"):
             rep.violation("%s/exception" % tag, {"case": c}, "%s raised: %s" % (json.dumps(c)[:300], o["exc"]))
+            continue
+        if c["kind"] == "roots":
+            check_roots(rep, c, o, worst)
             continue
         if c["kind"] == "poly":
             v = [fr(x) for x in w["v"]]
@@ -252,6 +376,20 @@ def main():
     cov["cases"] = len(cases)
     cov["cases_by_kind"] = kinds
     cov["largest_relative_difference_seen"] = {k: float("%.3g" % v) for k, v in sorted(worst.items(), key=lambda kv: -kv[1])[:12]}
+    if pid == "C30":
+        cov["largest_error_over_allowed_seen"] = cov.pop("largest_relative_difference_seen")
+        styles = {}
+        for c in cases:
+            k = "%s/degree-%d/%s" % ("real" if c["real"] else "complex", len(c["factors"]), c["style"])
+            styles[k] = styles.get(k, 0) + 1
+        cov["cases_by_coefficients_degree_style"] = styles
+        cov["invariants_checked_by_TLC_per_case"] = ["every given root makes the expanded polynomial vanish (exact complex-integer arithmetic)", "leading and constant coefficients are Vieta's products", "real => all coefficients real"]
+        cov["samples"] = [{"case": cases[0], "expected": want[0]}, {"case": cases[-1], "expected": want[-1]}]
+        cov["uncovered"] = ["polynomials whose roots are not Gaussian rationals", "degrees above 8", "clusters of nearly equal but distinct roots"]
+        cov["exhaustive"] = False
+        if len(rep.violations) > 30:
+            rep.violations = rep.violations[:30]
+        return rep.finish("model_checking", cov, assumptions=["roots are Gaussian integers over small denominators; a returned root may differ from the exact one by what its conditioning allows: (2e4 n eps sum|c_k||z|^k m!/|P^(m)(z)|)^(1/m)"])
     cov["design_facts_checked_by_TLC"] = ["StepDesign: S(0)=0, S(1)=1, S' = 30 (x(x-1))^2, S'(0)=S'(1)=S''(0)=S''(1)=0, the factored forms the code uses for S'' and S'''"]
     cov["samples"] = [{"case": cases[0], "expected": want[0]}, {"case": cases[-1], "expected": want[-1]}]
     cov["uncovered"] = ["arguments and parameters off the rational sub-domain", "splines through data that is not polynomial of degree < (degree+1)/2 away from the knots; continuity across knots",
